@@ -13,6 +13,9 @@ CORR = {
     "ltx_enc_run": "Ltx/Snapshot.v enc_page/enc_run vs ltx.Encoder.EncodePage (ordering and lock-page rule)",
     "ltx_snapshot_pgnos": "Ltx/Snapshot.v db_pgnos vs the page numbers db.go writeLTXFromDB wrote (first sync, DB.Snapshot, level-1 file from TXID 1)",
     "ltx_wal_pgnos": "Ltx/Snapshot.v wal_pgnos vs the page numbers db.go writeLTXFromWAL wrote (incremental sync with growth fill)",
+    "ltx_wal_encode": "Ltx/Snapshot.v wal_pgnos + enc_run vs the REAL db.go writeLTXFromWAL (hook WriteLTXFromWALVerif) on a grid of "
+                      "(previous commit, commit, page map) around the lock page",
+    "ltx_db_encode": "Ltx/Snapshot.v db_pgnos + enc_run vs the REAL db.go writeLTXFromDB (hook WriteLTXFromDBVerif) for commits around the lock page",
 }
 
 
@@ -65,11 +68,20 @@ def run(v):
         "rule": "(a) ltx.LockPgno for the eight page sizes and out-of-range sizes; (b) page-number sequences fed to a real "
                 "ltx.Encoder: non-snapshot sequences around the lock page for all eight sizes, small snapshot sequences, "
                 "and 1 GiB snapshot sequences reaching the lock page (65536 in quick, all sizes in thorough): accepted "
-                "across the lock page, rejected with the lock page / with a too long skip; (c) real SQLite databases whose "
-                "file and header size are extended past 1 GiB with a hole (quick: 65536, lock page first beyond the "
-                "committed range then inside after a growth across the boundary in ONE incremental sync; thorough: all "
-                "eight sizes, plus lock page last / next / inside at 65536 and 4096) driven through DB.Sync (snapshot and "
-                "incremental path), Replica.Sync, DB.Snapshot, DB.Compact(1) twice, DB.Close and Replica.Restore; "
+                "across the lock page, rejected with the lock page / with a too long skip; (b2) the REAL writeLTXFromWAL "
+                "(hook /repo/export_verif_ltx.go) on a sparse database file with a directly supplied page map, for all "
+                "eight page sizes x previous commit lockPgno-3..+2 x growth -2,0,1,2,3,6 x page map {no growth page, "
+                "every growth page, random part + older pages, lock page in the WAL}: emitted page list = wal_pgnos, "
+                "status = the encoder's verdict (ltx_wal_encode); the REAL writeLTXFromDB for commits lockPgno..+3 "
+                "(ltx_db_encode); (c) real SQLite databases whose file and header size are extended past 1 GiB with a "
+                "hole, page size 65536 in quick: boundary histories with the FIRST synced size at lockPgno-2, lockPgno-1 "
+                "(exactly 1 GiB), lockPgno, lockPgno+1, each followed by transactions growing the database by 1, 2 and 5 "
+                "pages (one root page per CREATE TABLE), ONE incremental sync per transaction (the pairs actually "
+                "reached are listed under sparse_databases as 'real incremental syncs: ...'; SQLite writes a frame for "
+                "every page it allocates, so growth pages without frames are reached only through (b2)); one scenario "
+                "(previous size exactly 1 GiB, growth across the lock page) continues through Replica.Sync, DB.Snapshot, "
+                "DB.Compact(1) twice, DB.Close and Replica.Restore; further scenarios run while the quick tier's 30 s "
+                "budget lasts (skipped ones are listed); thorough: all of it for all eight sizes; "
                 "observables: header and page-number runs of EVERY LTX file in the replica (spec oracle ltx_file_ok: no "
                 "lock page, growth-closed, full files exactly [1..commit] minus lock; model entries ltx_snapshot_pgnos / "
                 "ltx_wal_pgnos) and the restored file vs the checkpointed source by 1 MiB stripes with the lock page "
@@ -103,7 +115,7 @@ def run(v):
                     "implementation and model disagree on %d cases (entry %s first)" % (len(other), m["entry"]),
                     {"theorem_or_correspondence": "correspondence " + CORR.get(m["entry"], m["entry"]),
                      "case_lines": C.case_with_defs(cases, m["line"]), "model_says": m["model"]},
-                    found_input=m["entry"] in ("ltx_snapshot_pgnos", "ltx_wal_pgnos") and not spec_bad)
+                    found_input=m["entry"] in ("ltx_snapshot_pgnos", "ltx_wal_pgnos", "ltx_wal_encode", "ltx_db_encode") and not spec_bad)
 
 
 def replay(v, path):
